@@ -157,7 +157,7 @@ func r18_2(c *Ctx, rule string) {
 	var ddCall *ssa.Call
 	for _, call := range c.P.CallsTo(fl, "fsutil.dedupePaths") {
 		if cl, ok := call.(*ssa.Call); ok {
-			dds[cl.Name()] = true
+			dds[c.reg(cl)] = true
 			ddCall = cl
 		}
 	}
@@ -167,7 +167,7 @@ func r18_2(c *Ctx, rule string) {
 		if !x.IsSuccessReturn(in, st) {
 			return false
 		}
-		if dds[x.KeyOf(in.(*ssa.Return).Results[0], st)] {
+		if dds[x.SourceKey(in.(*ssa.Return).Results[0], st)] {
 			good++
 			return false
 		}
@@ -236,6 +236,45 @@ func r18_2(c *Ctx, rule string) {
 		ex.Run()
 		c.R.Check(bad == 0, rule, c.name(dd)+"/root-is-no-filter", c.P.Pos(dd.Pos()), "a \".\" element makes the result nil (no filter)", "a \".\" element does not make dedupePaths return nil")
 	}
+	// the root test is applied to every element: its operand is the element of
+	// the loop over the input (not a fixed position - "." does not sort first:
+	// '*', '-', '+' and others precede it), and it precedes keeping the element
+	perElem := 0
+	var tests []*ssa.BinOp
+	eng.Instrs(dd, func(in ssa.Instruction) {
+		bo, ok := in.(*ssa.BinOp)
+		if !ok || (bo.Op != token.EQL && bo.Op != token.NEQ) {
+			return
+		}
+		if s, isS := eng.ConstString(bo.Y); !isS || s != "." {
+			return
+		}
+		ld, isLd := eng.Canon(bo.X).(*ssa.UnOp)
+		if !isLd || ld.Op != token.MUL {
+			return
+		}
+		ia, isIA := ld.X.(*ssa.IndexAddr)
+		if !isIA {
+			return
+		}
+		if _, isConst := ia.Index.(*ssa.Const); isConst {
+			return
+		}
+		if _, isParam := eng.Canon(ia.X).(*ssa.Parameter); isParam && eng.InCycle(bo.Block()) {
+			perElem++
+			tests = append(tests, bo)
+		}
+	})
+	c.R.Check(perElem > 0, rule, c.name(dd)+"/root-test-per-element", c.P.Pos(dd.Pos()), "every element of the input is compared with \".\"", "dedupePaths does not compare every element with \".\" (only a fixed position, or none): a resolved root that does not sort first leaves the pattern \".\", which matches nothing")
+	for _, call := range c.P.CallsTo(dd, "builtin:append") {
+		dom := false
+		for _, t := range tests {
+			if eng.Dominates(t, call) {
+				dom = true
+			}
+		}
+		c.R.Check(dom, rule, c.siteName(call)+"/kept-after-root-test", c.pos(call), "an element is kept only after it was compared with \".\"", "an element is appended to the result without having been compared with \".\"")
+	}
 	n := 0
 	for _, call := range c.P.CallsTo(dd, "strings.HasPrefix") {
 		n++
@@ -297,20 +336,23 @@ func r18_3(c *Ctx, rule string) {
 				if !ok {
 					continue
 				}
-				if s.Val == ssa.Value(clean) {
-					nAbs++
-					continue
+				// (a helper that computes the target stands for each value it can return)
+				for _, val := range eng.ResolveAll(s.Val) {
+					if val == ssa.Value(clean) {
+						nAbs++
+						continue
+					}
+					parts, isJoin := c.joinParts(val)
+					if !isJoin {
+						c.R.Fail(rule, c.name(rs)+"/target-form", c.pos(s), "a link target is returned that is neither the cleaned absolute link nor a Join rooted at the separator")
+						continue
+					}
+					nRel++
+					okRoot := len(parts) >= 2 && parts[0] == sep
+					okLink := c.DerivesFrom(val, func(v ssa.Value) bool { return v == ssa.Value(clean) }, 8)
+					okDir := c.DerivesFrom(val, func(v ssa.Value) bool { return c.isCallValueTo(v, "path/filepath.Dir") }, 8)
+					c.R.Check(okRoot && okLink && okDir, rule, c.name(rs)+"/relative-rooted", c.pos(s), "relative link = Join(Separator, Join(Dir(p), cleaned link)): '..' cannot climb above the root", "a relative link target is not rebuilt as Join(Separator, Join(Dir(p), link)): '..' beyond the root is not clamped")
 				}
-				parts, isJoin := c.joinParts(s.Val)
-				if !isJoin {
-					c.R.Fail(rule, c.name(rs)+"/target-form", c.pos(s), "a link target is returned that is neither the cleaned absolute link nor a Join rooted at the separator")
-					continue
-				}
-				nRel++
-				okRoot := len(parts) >= 2 && parts[0] == sep
-				okLink := c.DerivesFrom(s.Val, func(v ssa.Value) bool { return v == ssa.Value(clean) }, 8)
-				okDir := c.DerivesFrom(s.Val, func(v ssa.Value) bool { return c.isCallValueTo(v, "path/filepath.Dir") }, 8)
-				c.R.Check(okRoot && okLink && okDir, rule, c.name(rs)+"/relative-rooted", c.pos(s), "relative link = Join(Separator, Join(Dir(p), cleaned link)): '..' cannot climb above the root", "a relative link target is not rebuilt as Join(Separator, Join(Dir(p), link)): '..' beyond the root is not clamped")
 			}
 		}
 	})
